@@ -67,11 +67,11 @@ def plan(tier):
             for first in range(-10, 11):
                 specs.append({"part": "dfs", "w": 8, "start": start, "depth": 5, "first": first})
         for i in range(16):
-            specs.append({"part": "hyp", "n": 20000, "i": i})
+            specs.append({"part": "hyp", "n": 50000, "i": i})
         for i in range(8):
             specs.append({"part": "hdr", "n": 5000, "i": i})
         for i in range(8):
-            specs.append({"part": "hdrworld", "n": 1500, "i": i})
+            specs.append({"part": "hdrworld", "n": 4000, "i": i})
     return specs
 
 
